@@ -86,6 +86,17 @@ class FrameSim:
                     self.objs["o%d" % bb] = {"len": 0, "pos": 0, "b0": None, "pk": None, "writes": 0}
                     self.callvals[bb] = ("vecobj", "o%d" % bb)
                     continue
+                if re.search(r"vec::from_elem$", d) and len(args) == 2:
+                    try:
+                        n0 = ev.ev(args[1])
+                    except (tabeval.Unknown, tabeval.Panic):
+                        n0 = None
+                    if n0 == 0:
+                        self.objs["o%d" % bb] = {"len": 0, "pos": 0, "b0": None, "pk": None, "writes": 0}
+                        self.callvals[bb] = ("vecobj", "o%d" % bb)
+                        continue
+                    out["trap"] = "the frame buffer is created pre-filled (vec![_; n], n not known to be 0): whatever the packet writer does not overwrite is sent behind the frame"
+                    return out
                 if re.search(r"io::cursor::Cursor::<T>::new$", d):
                     st = self._obj(ev, args[0])
                     if st is None:
